@@ -15,8 +15,15 @@
 //   - after a change of the window size the window that was open at that moment may
 //     run to its end: requests are judged only when their whole grid cell starts at
 //     or after the end of the last old-size window ("settled");
-//   - spill-over (not part of the statement) is not judged, only carried through the
-//     model correspondence; default behaviour "undefined"/unknown literals neither;
+//   - requests handled while spill-over is ENABLED for them are not judged (the statement
+//     does not say how much unused quota is carried over), only carried through the model
+//     correspondence; requests handled with spill-over DISABLED are held to the nominal share
+//     ceil(allowed*pct/100) -- also when spill-over was enabled for the group earlier.  A
+//     failure of such a request is classified "stale-spillover:TryToIncrement" (known finding
+//     F-C09c: the amount accumulated while spill-over was on stays in the limit) exactly when
+//     some earlier request of the same (remedy, group) had spill-over enabled; without such a
+//     request it is an ordinary over-admission / unjustified rejection;
+//   - default behaviour "undefined"/unknown literals are not judged;
 //   - header values differing only in surrounding white space: counted as different
 //     groups for the upper bound and as one group for the rejection check.
 package main
@@ -59,6 +66,7 @@ type rec struct {
 	lo, hi int64 // exact share (lo < hi only when the table lists the value twice)
 	pass   bool  // proceeded
 	judge  bool  // false: the text says nothing definite about this call
+	spill  bool  // spill-over enabled for this call
 	peek   bool  // a Counters() call: touches every group, carries no verdict
 }
 
@@ -75,13 +83,15 @@ type groupState struct {
 	seen     bool
 	staleEnd int64 // end of the last window opened under an earlier window size
 	stale    bool
-	dead     bool // spill-over or a non-positive window size was used for this group
+	dead     bool // a non-positive window size / an unjudgeable ratio was used for this group
+	spilled  bool // some earlier request of this group had spill-over enabled
 	passes   []passRec
 }
 
 type verdictIssue struct {
-	idx  int
-	text string
+	idx   int
+	text  string
+	stale bool // an earlier request of the group had spill-over enabled
 }
 
 func (g *groupState) observeWindow(now, w int64) {
@@ -122,6 +132,15 @@ func judge(recs []rec) (overR, overL, unjust []verdictIssue) {
 			}
 			continue
 		}
+		if r.spill {
+			// nothing is demanded while spill-over is enabled; remembered for the classifier
+			g.spilled = true
+			if r.pass {
+				g.passes = append(g.passes, passRec{r.now, r.fine})
+			}
+			g.observeWindow(r.now, r.w)
+			continue
+		}
 		g.observeWindow(r.now, r.w)
 
 		fl := floorDiv(r.now, r.w) * r.w
@@ -152,17 +171,17 @@ func judge(recs []rec) (overR, overL, unjust []verdictIssue) {
 				if nR >= r.hi {
 					overR = append(overR, verdictIssue{r.idx, fmt.Sprintf(
 						"call #%d of %s at %d ns proceeded as number %d of its window (%d,%d], share %d",
-						r.idx, r.fine, r.now, nR+1, lbR, lbR+r.w, r.hi)})
+						r.idx, r.fine, r.now, nR+1, lbR, lbR+r.w, r.hi), g.spilled})
 				}
 				if nL >= r.hi {
 					overL = append(overL, verdictIssue{r.idx, fmt.Sprintf(
 						"call #%d of %s at %d ns proceeded as number %d of its window [%d,%d), share %d",
-						r.idx, r.fine, r.now, nL+1, lbL, lbL+r.w, r.hi)})
+						r.idx, r.fine, r.now, nL+1, lbL, lbL+r.w, r.hi), g.spilled})
 				}
 			} else if nC < r.lo {
 				unjust = append(unjust, verdictIssue{r.idx, fmt.Sprintf(
 					"call #%d of %s at %d ns rejected with %d of %d used in [%d,%d]",
-					r.idx, r.coarse, r.now, nC, r.lo, lbC, fl+r.w)})
+					r.idx, r.coarse, r.now, nC, r.lo, lbC, fl+r.w), g.spilled})
 			}
 		}
 		if r.pass {
@@ -172,9 +191,40 @@ func judge(recs []rec) (overR, overL, unjust []verdictIssue) {
 	return
 }
 
+const staleSpillSig = "stale-spillover:TryToIncrement"
+
+func splitStale(is []verdictIssue) (plain, stale []verdictIssue) {
+	for _, i := range is {
+		if i.stale {
+			stale = append(stale, i)
+		} else {
+			plain = append(plain, i)
+		}
+	}
+	return
+}
+
 func verdictHits(recs []rec, kase any, site string) []c.Hit {
 	var hits []c.Hit
-	overR, overL, unjust := judge(recs)
+	allR, allL, allU := judge(recs)
+	overR, staleR := splitStale(allR)
+	overL, staleL := splitStale(allL)
+	unjust, staleU := splitStale(allU)
+	if len(staleR) > 0 && len(staleL) > 0 {
+		hits = append(hits, c.Hit{
+			Signature: staleSpillSig,
+			Demanded:  "with spill-over disabled at most ceil(allowed*pct/100) requests of a (remedy, group) proceed per grid window (either closure), also after spill-over was enabled earlier",
+			Observed:  "(" + site + ") " + staleR[0].text + "; " + staleL[0].text,
+			Case:      kase,
+		})
+	} else if len(staleU) > 0 {
+		hits = append(hits, c.Hit{
+			Signature: staleSpillSig,
+			Demanded:  "with spill-over disabled a request is rejected only if its group's nominal share of the current window is used up, also after spill-over was enabled earlier",
+			Observed:  "(" + site + ") " + staleU[0].text,
+			Case:      kase,
+		})
+	}
 	if len(overR) > 0 && len(overL) > 0 {
 		hits = append(hits, c.Hit{
 			Signature: "over-admission:" + site,
@@ -229,6 +279,11 @@ func pctString(e4 int64) string {
 func monitorHist(k *HistCase) []c.Hit {
 	var recs []rec
 	var hits []c.Hit
+	if k.ColFail > 0 {
+		hits = append(hits, c.Hit{Signature: "collection-failed:limit",
+			Demanded: "RateLimitState.Counters() returns",
+			Observed: fmt.Sprintf("%d Counters() call(s) panicked", k.ColFail), Case: k})
+	}
 	oi := 0
 	for i, op := range k.Ops {
 		if op.Peek {
@@ -257,7 +312,7 @@ func monitorHist(k *HistCase) []c.Hit {
 		}
 		id := fmt.Sprintf("%q/%v/%q", key.Limiter, key.Grouped, key.Group)
 		r := rec{idx: i, fine: id, coarse: id, now: op.Now, w: p.W, pass: obs == 1,
-			judge: !p.Spill && p.PctE4 >= 0}
+			judge: p.PctE4 >= 0, spill: p.Spill}
 		if r.judge {
 			r.lo = exactShare(p.Allowed, p.PctE4)
 			r.hi = r.lo
@@ -310,7 +365,7 @@ func monitorPluginSite(k *PluginCase, site string, kase any) []c.Hit {
 				fmt.Sprintf("request #%d rejected with %d", i, obs))
 			continue
 		}
-		r := rec{idx: i, now: rq.Now, w: int64(rm.WindowS) * sec, pass: obs == 0, judge: !rm.Spill}
+		r := rec{idx: i, now: rq.Now, w: int64(rm.WindowS) * sec, pass: obs == 0, judge: true, spill: rm.Spill}
 		if rm.Gqa == nil {
 			r.fine = fmt.Sprintf("%q/ungrouped", rm.Name)
 			r.coarse = r.fine
